@@ -33,8 +33,9 @@ type Env struct {
 	frame  *Frame
 	anchSt *State // where anchors are looked up (nil: st)
 	inOld  bool
-	bound  map[string]bool
-	depth  int
+	bound   map[string]bool
+	depth   int
+	pattern *Expr
 }
 
 func (e *Env) derive(st *State) *Env {
@@ -154,11 +155,21 @@ func (e *Env) eval(x *Expr) TV {
 		n := e.derive(e.st)
 		var decl []string
 		for _, v := range x.Vars {
-			name := reg.fresh("q_" + v)
-			n.vars[v] = scInt(Term{name, SInt})
-			decl = append(decl, fmt.Sprintf("(%s Int)", name))
+			vn, vt := v, "int"
+			if i := strings.Index(v, ":"); i >= 0 {
+				vn, vt = v[:i], v[i+1:]
+			}
+			srt, gt := specSort(vt)
+			name := "q" + reg.fresh(vn)
+			n.vars[vn] = TV{Sc{Term{name, srt}}, gt}
+			decl = append(decl, fmt.Sprintf("(%s %s)", name, srt))
 		}
 		body := n.evalBool(x.Args[0])
+		if e.pattern != nil {
+			pt := n.eval(e.pattern)
+			ps := e.st.flatten(pt.V)
+			return scBool(Term{fmt.Sprintf("(%s (%s) (! %s :pattern (%s)))", x.Op, strings.Join(decl, " "), body.S, ps[0].S), SBool})
+		}
 		return scBool(Term{fmt.Sprintf("(%s (%s) %s)", x.Op, strings.Join(decl, " "), body.S), SBool})
 	case "sel":
 		return e.sel(x)
